@@ -1,0 +1,76 @@
+//! Verification hooks (compiled only with `--cfg xet_verif`).
+//!
+//! A deterministic-simulation harness installs a per-thread [`Hooks`] object; with nothing
+//! installed every function here is a no-op / returns `None`, and without the cfg flag this
+//! module does not exist.
+
+use std::cell::RefCell;
+use std::path::Path;
+use std::sync::Arc;
+use std::time::Duration;
+
+pub trait Hooks: Send + Sync {
+    /// A synchronous schedule / crash point between two externally visible effects.
+    fn point(&self, _label: &'static str) {}
+
+    /// Asynchronous schedule point: `Some(d)` = give other tasks a chance to run; `d == 0` is a plain
+    /// yield, anything else a (simulated) sleep.
+    fn delay(&self, _label: &'static str) -> Option<Duration> {
+        None
+    }
+
+    /// Simulated wall clock, seconds since the epoch.
+    fn now_secs(&self) -> Option<u64> {
+        None
+    }
+
+    /// Replacement for an unseeded random draw.
+    fn rand_usize(&self) -> Option<usize> {
+        None
+    }
+
+    /// Called after a file was moved to its final name; a simulator may set its mtime from the simulated clock.
+    fn stamp_mtime(&self, _path: &Path) {}
+}
+
+thread_local! {
+    static HOOKS: RefCell<Option<Arc<dyn Hooks>>> = const { RefCell::new(None) };
+}
+
+/// Installs (or with `None` removes) the hooks of the calling thread; returns the previous ones.
+pub fn install(h: Option<Arc<dyn Hooks>>) -> Option<Arc<dyn Hooks>> {
+    HOOKS.with(|c| std::mem::replace(&mut *c.borrow_mut(), h))
+}
+
+fn current() -> Option<Arc<dyn Hooks>> {
+    HOOKS.with(|c| c.borrow().clone())
+}
+
+pub fn point(label: &'static str) {
+    if let Some(h) = current() {
+        h.point(label);
+    }
+}
+
+pub async fn yield_point(label: &'static str) {
+    let d = current().and_then(|h| h.delay(label));
+    match d {
+        None => {},
+        Some(d) if d.is_zero() => tokio::task::yield_now().await,
+        Some(d) => tokio::time::sleep(d).await,
+    }
+}
+
+pub fn now_secs() -> Option<u64> {
+    current().and_then(|h| h.now_secs())
+}
+
+pub fn rand_usize() -> Option<usize> {
+    current().and_then(|h| h.rand_usize())
+}
+
+pub fn stamp_mtime(path: &Path) {
+    if let Some(h) = current() {
+        h.stamp_mtime(path);
+    }
+}
